@@ -545,7 +545,7 @@ func genMinter(g *Gen, n int) {
 				}
 			}
 		}
-		if s%4 == 3 {
+		if s%8 == 3 {
 			// directed shape: far into an exponential period (more than 1000 steps) whose multiplier keeps
 			// changing the step amount: inflation and emission must still use the same step
 			st0 := t0 + int64(g.intn(1000))*sec
